@@ -140,7 +140,7 @@ pub fn gen(prop: &str, seed: u64) -> RunDesc {
         t.phase = 1;
     }
     threads.push(t);
-    cfg.step_cap = 4_000_000;
+    cfg.step_cap = 1_500_000;
     RunDesc {
         prop: prop.to_string(),
         family: "agesweep".into(),
